@@ -192,7 +192,8 @@ func MeasureClockOffsetSCION(ctx context.Context, log *slog.Logger,
 				Offset:    off,
 				Error:     err,
 			}
-		}(ctx, log, mtrcs, ntpcs[i], localAddr, remoteAddr, sps[i])
+		}(ctx, log, mtrcs, ntpcs[i], localAddr,
+			udp.UDPAddr{IA: remoteAddr.IA, Host: snet.CopyUDPAddr(remoteAddr.Host)}, sps[i])
 	}
 	n = collectMeasurements(ctx, ms, msc)
 	if n == 0 {
